@@ -70,7 +70,7 @@ func drawC10(t *rapid.T) c10Case {
 			}
 		}
 		if s == "spawner" {
-			if spawners >= 2 {
+			if spawners >= 2 || (spawners >= 1 && c.GOMAXPROCS == 1) {
 				s = "read"
 			} else {
 				spawners++
@@ -125,12 +125,12 @@ func checkC10(raw json.RawMessage) (ev.Result, error) {
 	if c.DelayUs > 0 && !c.Divergent && !c.EnosysFault {
 		job.Steps[2] = kjob.Step{Op: "sleep", N: c.DelayUs}
 	}
-	rr, err := kchild.Run(job, kchild.RunOpts{Strace: c.Strace, Timeout: 60e9})
+	rr, err := kchild.Run(job, kchild.RunOpts{Strace: c.Strace, Timeout: 45e9})
 	if err != nil {
 		return ev.Result{}, ev.Inconclusivef("%v", err)
 	}
 	if rr.TimedOut || rr.Signaled || !rr.Done() {
-		return ev.Result{}, ev.Inconclusivef("child did not finish (timeout %v, signal %v, exit %d, stderr %q)", rr.TimedOut, rr.Signal, rr.Exit, clip(rr.Stderr, 300))
+		return ev.Result{}, ev.Inconclusivef("child did not finish (timeout %v, signal %v, exit %d, stderr %q)", rr.TimedOut, rr.Signal, rr.Exit, clip(rr.Stderr, 3000))
 	}
 	c10Stats.runs++
 	le := rr.Find(3, "load")
